@@ -20,6 +20,7 @@ package sql
 import (
 	"context"
 	"flag"
+	"sync"
 	"time"
 
 	"seata.apache.org/seata-go/pkg/rm"
@@ -63,6 +64,10 @@ type AsyncWorker struct {
 	commitQueue  chan phaseTwoContext
 	resourceMgr  datasource.DataSourceManager
 	commitWorker *fanout.Fanout
+
+	// contexts whose deletion failed; drained by the run loop on the next tick
+	retryMu sync.Mutex
+	retry   []phaseTwoContext
 
 	branchCommitTotal          prometheus.Counter
 	doBranchCommitFailureTotal prometheus.Counter
@@ -133,9 +138,28 @@ func (aw *AsyncWorker) run() {
 				aw.doBranchCommit(&phaseCtxs)
 			}
 		case <-ticker.C:
+			phaseCtxs = append(phaseCtxs, aw.takeRetries()...)
 			aw.doBranchCommit(&phaseCtxs)
 		}
 	}
+}
+
+// requeue hands contexts back to the run loop without ever blocking a fanout worker: the run loop
+// is the only receiver of commitQueue and may itself be waiting for a free worker in fanout.Do, so
+// a blocking send on commitQueue from a worker can wedge the whole pipeline.
+func (aw *AsyncWorker) requeue(phaseCtxs ...phaseTwoContext) {
+	aw.rePutBackToQueue.Add(float64(len(phaseCtxs)))
+	aw.retryMu.Lock()
+	aw.retry = append(aw.retry, phaseCtxs...)
+	aw.retryMu.Unlock()
+}
+
+func (aw *AsyncWorker) takeRetries() []phaseTwoContext {
+	aw.retryMu.Lock()
+	defer aw.retryMu.Unlock()
+	retry := aw.retry
+	aw.retry = nil
+	return retry
 }
 
 func (aw *AsyncWorker) doBranchCommit(phaseCtxs *[]phaseTwoContext) {
@@ -177,37 +201,29 @@ func (aw *AsyncWorker) doBranchCommit(phaseCtxs *[]phaseTwoContext) {
 func (aw *AsyncWorker) dealWithGroupedContexts(resID string, phaseCtxs []phaseTwoContext) {
 	val, ok := aw.resourceMgr.GetCachedResources().Load(resID)
 	if !ok {
-		for i := range phaseCtxs {
-			aw.rePutBackToQueue.Add(1)
-			aw.commitQueue <- phaseCtxs[i]
-		}
+		aw.requeue(phaseCtxs...)
 		return
 	}
 
 	res := val.(*DBResource)
 	conn, err := res.db.Conn(context.Background())
 	if err != nil {
-		for i := range phaseCtxs {
-			aw.commitQueue <- phaseCtxs[i]
-		}
+		aw.requeue(phaseCtxs...)
+		return
 	}
 
 	defer conn.Close()
 
 	undoMgr, err := undo.GetUndoLogManager(res.dbType)
 	if err != nil {
-		for i := range phaseCtxs {
-			aw.rePutBackToQueue.Add(1)
-			aw.commitQueue <- phaseCtxs[i]
-		}
+		aw.requeue(phaseCtxs...)
 		return
 	}
 
 	for i := range phaseCtxs {
 		phaseCtx := phaseCtxs[i]
 		if err := undoMgr.BatchDeleteUndoLog([]string{phaseCtx.Xid}, []int64{phaseCtx.BranchID}, conn); err != nil {
-			aw.rePutBackToQueue.Add(1)
-			aw.commitQueue <- phaseCtx
+			aw.requeue(phaseCtx)
 		}
 	}
 }
